@@ -23,6 +23,8 @@ CLAIMED = {
    text="As C02 for is_skeptically_accepted; the three oracle-dependent exits of the PR counter-example search are reached on the same graph by varying the oracle policy.", note="as C01", ref="DESIGN.md 5/C03"),
  "C04": dict(level="exploration", technique=TECH + "frameworks x configurations x SAT-oracle behaviours, RefSem oracle)",
    text="The *_with_certificate entry points on every argument, half of the frameworks with several components and/or sparse ids: certificate present exactly when promised, is an extension of the right semantics (CO for DC-PR), contains / omits the argument, members carry the framework's own label and id, no duplicates.", note="as C01", ref="DESIGN.md 5/C04"),
+ "C05": dict(level="exploration", technique="deterministic simulation with fault injection at the process boundary (seeded invocations of the real binaries with injected environment faults: missing/directory/dangling/truncated instance file, failing stdout, malformed arguments; RefSem and reference parsers as oracle)",
+   text="Each run is one real process of crustabri solve / crustabri_iccma23 (built from the working tree, guard off) on a seeded invocation: instance text (both formats, ill-formed and bit-flipped variants), the 21 problems in random case and invalid strings, valid/unknown/missing/superfluous argument, reader/encoding/certificate/logging options, optionally a real external solver process (fakesat), and an environment fault (instance path missing / directory / dangling symlink / truncated; stdout = /dev/full or closed pipe). Valid invocations must exit 0 with exactly the status/witness lines that RefSem accepts; usage/input errors must exit non-zero without an answer line; --problems must list exactly what is accepted, case-insensitively.", note="Black-box: scheduling inside the process is not controlled (C16 covers exec_solver). Permission-denied cannot be produced as root. 60 s watchdog.", ref="DESIGN.md 5/C05"),
  "C06": dict(level="exploration", technique=TECH + "query histories on one solver object replayed under alternative configurations: encoder x SAT backend (SimSat seeds, real CaDiCaL, real DIMACS writer/parser over a simulated solver program) x certificate flag x query order; differential + RefSem oracle)",
    text="One history of 6-24 queries applied to one solver object per configuration and re-applied under 2-4 alternative configurations (other encoder, other backend incl. the real BufferedSatSolver over a simulated solver with seeded legal reply layouts, flipped certificate flags, reversed/shuffled order, fresh objects): statuses must agree position by position and with RefSem; the framework snapshot must be unchanged.", note="The external backend is in-process here (real DIMACS writer/parser, simulated solver program); the process path is C16.", ref="DESIGN.md 5/C06"),
  "C07": dict(level="exploration", technique=TECH + "argument lists x frameworks x SAT-oracle behaviours, RefSem oracle)",
@@ -33,6 +35,8 @@ CLAIMED = {
    text="C08 histories plus a fault stream of redundant and invalid updates placed preferentially right after un-flushed updates: the update call itself must return Err (invalid) / Ok (redundant), the model is unchanged, all later answers match the unchanged model, no panic, and >= 3 fault-free queries at the end must be served (usable once faults stop).", note="as C08", ref="DESIGN.md 5/C09"),
  "C10": dict(level="exploration", technique=TECH + "encoder-object reuse histories x frameworks, CNF recorded at the SatSolver seam; per case an exhaustive 2^n refinement check against RefSem)",
    text="Weak fit, stated in DESIGN.md: the CNF is a function of (framework, encoder). The simulator contributes the recording backend at the seam the property names and the encoder-object history (one encoder object encodes 0-2 other frameworks first, as solvers do per component/query - this matters for the hybrid encoder's RefCell tables). Per case the check is exhaustive over all 2^n argument subsets in both directions, plus range reachability/exclusion, arg_to_lit injectivity and assignment_to_extension round trip; cases are sampled (all encoders incl. the two public factory functions, both sides of the hybrid threshold).", note="Frameworks <= 8 arguments with compact ids.", ref="DESIGN.md 5/C10"),
+ "C11": dict(level="exploration", technique="deterministic simulation with fault injection (differential runs of one framework under several presentations, each solved under a different seeded SAT-oracle behaviour - real CaDiCaL steered by seeded assumptions; polynomial validity checks; sample through the real binaries)",
+   text="Frameworks of 20-300 arguments (no reference semantics possible) are read through the real reader in 3-5 presentations (renamed/reordered arguments, shuffled/duplicated attack lines, disjoint unions with pooled components with and without stable extension); all DC/DS/SE problems are run on each presentation under a DIFFERENT simulated SAT-backend behaviour. Statuses must coincide (with the stated ST exception), GR within ID within every returned PR extension, DC-CO = DC-PR, skeptical implies credulous when an extension exists, ST/SST/STG coincide when a stable extension exists, returned sets pass the polynomial checks. Fair fit only (see DESIGN.md): what the simulator adds is that a status depending on which model came back is caught.", note="Differential oracle; SAT-call budget per query is deterministic, over-budget queries are counted as skipped.", ref="DESIGN.md 5/C11"),
  "C12": dict(level="exploration", technique=TECH + "operation histories incl. invalid/redundant operations, set-model refinement after every step)",
    text="Seeded update histories (3-80 operations over 1-8 labels, usize and String, invalid and redundant operations included) on AAFramework, compared after EVERY operation with a trivial set model on all public observables (counts, id order, lookups, three attack iterators, grounded extension, id stability, Err for invalid operations).", note="Trusted: RefStore set model. Sampling of histories; universes of at most 8 labels.", ref="DESIGN.md 5/C12"),
  "C13": dict(level="fault_enumeration", technique="deterministic simulation with fault injection (per generated text, enumeration of stream faults at every byte offset - EOF, hard read error, flipped bit - plus seeded chunkings with EINTR through a faulty Read seam; two independent reference parsers as oracle)",
